@@ -235,6 +235,52 @@ func gen(c *hx.Ctx) {
 	}
 	rec(nil, 0)
 
+	// 1b. big records that are really present: a length prefix of 65535 / 65536 / 65537 / 70000 / 2^20 (and random sizes
+	// above 64 KiB in the thorough tier) followed by that many bytes, behind a few other values (non-zero start offset) and in
+	// front of further values; every value is read with the matching call, so value, Position() after the big read and
+	// everything decoded behind it are compared
+	bigSizes := []int{65535, 65536, 65537, 70000, 1 << 20}
+	for i := 0; i < c.Budget(0, 8); i++ {
+		bigSizes = append(bigSizes, c.Rng.Range(65536, 400000))
+	}
+	for _, n := range bigSizes {
+		for _, op := range []string{"bytes", "str"} {
+			if n == 1<<20 && !c.Thorough() && (op == "str") == c.Rng.Bool() {
+				continue // quick tier: the 1 MiB record once
+			}
+			var input []byte
+			var ops []string
+			add := func(b []byte, o string) { input = append(input, b...); ops = append(ops, o) }
+			for k := c.Rng.Range(1, 3); k > 0; k-- { // what precedes the record
+				switch c.Rng.Intn(3) {
+				case 0:
+					add([]byte{byte(c.Rng.U64())}, "byte")
+				case 1:
+					add(le(c.Rng.U64(), 4), "i32")
+				default:
+					add(append(leb(3), 'a', 'b', 'c'), "str")
+				}
+			}
+			add(append(leb(uint32(n)), biasedBytes(c, n)...), op)
+			for k := c.Rng.Range(1, 5); k > 0; k-- { // what follows it: fewer or more bytes than the start offset
+				switch c.Rng.Intn(4) {
+				case 0:
+					add(le(c.Rng.U64(), 2), "i16")
+				case 1:
+					m := c.Rng.Range(1, 40)
+					add(append(leb(uint32(m)), biasedBytes(c, m)...), "bytes")
+				case 2:
+					add(leb(uint32(c.Rng.U64())>>uint(c.Rng.Intn(32))), "v7")
+				default:
+					add(le(c.Rng.U64(), 8), "i64")
+				}
+			}
+			ops = append(ops, "byte") // one call beyond the end
+			emit(c, "%s | %s", hexOf(input), strings.Join(ops, " ; "))
+			c.Count("big_valid_record_64KiB_and_above")
+		}
+	}
+
 	// 2. structure-aware random inputs: concatenated pieces (valid, truncated, over-long, hostile prefixes) + matching / random calls
 	for i := 0; i < c.Budget(25000, 600000); i++ {
 		var input []byte
